@@ -11,7 +11,7 @@ class C14(WigBedProp):
     rule = ("small bigWig / bigBed inputs (1–3 chromosomes), inputs with > 8 KiB of data per chromosome (so that the nested "
             "BufWriters spill mid-stream) and inputs of 3–5 chromosomes with 2–7 KiB each (tails below the BufWriter capacity "
             "that exceed it together), inputs of 3–4 chromosomes of 10–40 KiB each (a staged chromosome is copied into the destination "
-            "at the hand-over), all option records; for each: the recorded sequence of destination operations, every "
+            "at the hand-over), one input whose second chromosome (80,000 values, parallel source, temp-file staging) is still being written when the file is handed to it, all option records; for each: the recorded sequence of destination operations, every "
             "prefix replayed into an empty buffer AND into a buffer that already holds an older complete file of the same kind, and opened with the real readers (rejected / complete / partial: all chromosomes, "
             "every record and every zoom record compared with the complete file), and the write repeated with the k-th destination "
             "operation failing, for every k and operation kind. Non-trivial = every case (each contributes all its prefixes and "
@@ -83,6 +83,18 @@ class C14(WigBedProp):
             if big:
                 tags.add("spills_bufwriter")
             out.append(CaseT(f"o{k}", "bedops" if bed else "wigops", [], lines, self.common_tags(o, names, data, tags)))
+        # a LATER chromosome that has already staged several buffers aside and is STILL being written when the file is handed
+        # to it (per-chromosome-parallel source, temp-file staging): the replay of the staged bytes happens inside the
+        # producer's next write, and a fault can land on that replay
+        for g in range(2 if tier == "thorough" else 1):
+            names = ["chrA", "chrB"]
+            sizes = {"chrA": 2000000, "chrB": 2000000}
+            data = {"chrA": [(i * 9, i * 9 + 4, bbgen.f32bits(float(1 + i % 7))) for i in range(20000)],
+                    "chrB": [(i * 9, i * 9 + 4, bbgen.f32bits(float(1 + i % 11))) for i in range(80000 + 1000 * g)]}
+            o = {"compress": 0, "ips": 1024, "bs": 256, "zooms": "none", "pass": 1, "inmem": 0, "rt": "mt", "threads": 4, "chan": 100,
+                 "src": "par", "sort": "all"}
+            lines = [bbgen.opt_line(o)] + bbgen.wig_lines(names, sizes, data)
+            out.append(CaseT(f"still{g}", "wigops", [], lines, {"wig", "later_chromosome_still_writing_at_handover", "multi_chrom"}))
         return out
 
     def view(self, lines):
